@@ -69,6 +69,9 @@ var sources = []string{
 	"T | summarize count() by ia | where iif(true, now() > 0, isnotnull(ia))",
 	"T; U",
 	"let lo = -1; T | where a > lo",
+	"let null = 0; T | where x == null | count",
+	"let true = false; T | where true and a | extend y = true",
+	"let false = 1; let n = false; T | take n | where b == false",
 	"let x = `q`; T",
 	"\n\n   let yy = 1; let x = `q`; T | count",
 	"let y = a.b; T",
@@ -506,8 +509,23 @@ func seqCalls(seed int64, n int) (srcs []string, opt []int) {
 	vg := &gen.Valid{Rng: rng}
 	seeds := gen.Seeds()
 	corpus := gen.NewCorpus(seeds, 1)
+	// many distinct things of each kind a process might remember (names that
+	// need escaping, strings, numbers, function names, table names), far more
+	// than any small cache holds, each used again later
+	distinct := func(k int) string {
+		return fmt.Sprintf("`t%d\"x` | where `c\\%d` == 'v%d' and f%d(a) > %d | project `c\\%d`, n%d = %d | as `s%d\"`", k, k, k, k, 1000+k, k, k, k, k)
+	}
 	for i := 0; i < n; i++ {
 		var s string
+		if i%3 == 0 && i/3 < 400 {
+			k := i / 3
+			if k >= 200 {
+				k = (k - 200) * 7 % 200 // the early ones again, in another order
+			}
+			srcs = append(srcs, distinct(k))
+			opt = append(opt, rng.Intn(len(optNames)))
+			continue
+		}
 		switch i % 5 {
 		case 0, 1:
 			s = pqlref.Print(vg.Program(), pqlref.Layout{Mode: i % 2}).Src
@@ -538,6 +556,11 @@ func seqChild(args []string) {
 	order := args[2] // forward | reverse | shuffle
 	outFile := args[3]
 	srcs, opt := seqCalls(seed, n)
+	if os.Getenv("VERIF_C14SEQ_DUMP") != "" {
+		for i, s := range srcs {
+			fmt.Fprintf(os.Stderr, "%d\t%d\t%q\n", i, opt[i], s)
+		}
+	}
 	idx := make([]int, n)
 	for i := range idx {
 		idx[i] = i
